@@ -130,6 +130,11 @@ class URLInfo(object):
         if frozenset(url) & C0_CONTROL_SET:
             raise ValueError('URL contains control codes: {}'.format(ascii(url)))
 
+        if 'a+/'.encode(encoding) != b'a+/':
+            # UTF-16, UTF-7, EBCDIC...: percent-encoding with such a codec
+            # rewrites the ASCII of the URL itself. Use UTF-8 as browsers do.
+            encoding = 'utf-8'
+
         scheme, sep, remaining = url.partition(':')
 
         if not scheme:
